@@ -69,6 +69,15 @@ def run_wellformed(ctx, bt, spec):
         msg = str(e)
         if kind.startswith("PaperRun") and spec["dates"] and "price is nan as of" in msg:
             key = "C10/wellformed-raised:paper-copy-runs-on-synthetic-row"
+        import traceback as _tb
+        frames = []
+        ee = e
+        while ee is not None:
+            frames += [f.name for f in _tb.extract_tb(ee.__traceback__)]
+            ee = ee.__cause__ or ee.__context__
+        if isinstance(e, IndexError) or kind.endswith("IndexError"):
+            if "calc_total_return" in frames:
+                key = "C10/wellformed-raised:StatTotalReturn:empty-window"
         if kind.startswith("PaperRun") and "latest price is NaN" in msg and msg.rstrip(". Cannot update node value").endswith(" on 0"):
             key = "C10/wellformed-raised:shadow-copy-securities-keep-old-root"
         ctx.violation(key, "well-formed backtest raised %s: %s" % (type(e).__name__, msg[:200]), rd)
@@ -258,6 +267,11 @@ def run(ctx, bt, scale=1):
         for sp in json.load(open(pp)):
             ctx.evaluations += 1
             run_wellformed(ctx, bt, sp)
+    pp = os.path.join(HERE, "corpus", "C10_momentum_empty_window.json")
+    if os.path.exists(pp):
+        for sp in json.load(open(pp)):
+            ctx.evaluations += 1
+            run_wellformed(ctx, bt, sp)
     pp = os.path.join(HERE, "corpus", "C10_shadow_copy_root.json")
     if os.path.exists(pp):
         for sp in json.load(open(pp)):
@@ -279,8 +293,12 @@ def run(ctx, bt, scale=1):
     for _ in range(ctx.scale(30, 600) * scale):
         ctx.evaluations += 1
         run_wellformed(ctx, bt, W.gen_spec(ctx.rng, depth3=ctx.rng.random() < 0.2))
+    for _ in range(ctx.scale(30, 600) * scale):
+        ctx.evaluations += 1
+        run_wellformed(ctx, bt, W.gen_spec_x(ctx.rng))
     if scale == 1:
         W.whole_run_protocol(ctx, bt, ctx.scale(25, 500), "whole-run[C10]")
+        W.whole_run_protocol(ctx, bt, ctx.scale(25, 500), "whole-run-x[C10]:selection-sequences", extended=True)
     for _ in range(ctx.scale(2, 30) * scale):
         for c in ill_cases(ctx.rng):
             ctx.evaluations += 1
